@@ -20,7 +20,7 @@ CLAIMED: dict[str, tuple[str, str, str, str]] = {
         "back to (distribution name, version, tag) for every name and every version text without '-'; relative forward-slash paths without "
         "'..'; prepared dist-info files are the wheel's dist-info members. Every run re-reads each real wheel and recomputes all hashes, "
         "modes, paths, name agreement via packaging.parse_wheel_filename, returned name vs directory, prepared vs built dist-info bytes.",
-        TB + "Partial: zip/deflate, sha256 (uninterpreted), csv dialect of CPython 3.12 and the file system are trusted; that the builder performs the modelled call sequence is sampled (logged in-process), not proved; ASCII names; D11 local-version labels with '-' excluded (known finding).",
+        TB + "Partial: zip/deflate, sha256 (uninterpreted), csv dialect of CPython 3.12 and the file system are trusted; that the builder performs the modelled call sequence is sampled (logged in-process), not proved; each-member-once is proved for the builder's own sequence under the decidable ConfigDistinct, whose complement (two sources -> one archive name) was a genuine defect (duplicate member, two RECORD rows), repaired in /repo (a8f41e9: the builder refuses the second file); ASCII names; D11 local-version labels with '-' excluded (known finding).",
         "DESIGN.md §4 C01",
     ),
     "C06": (
@@ -83,7 +83,7 @@ CLAIMED: dict[str, tuple[str, str, str, str]] = {
         "group/other bits, root path; every zip time is gmtime(t), or the default iff t<315532800 / unset / non-integer; every tar and gzip mtime "
         "is t or 0. Every run rebuilds generated projects under touch / chmod-in-class / re-creation elsewhere in another order / cwd+TZ+LC_ALL+"
         "umask / left-over dist+build / all, across the six SOURCE_DATE_EPOCH values, plus PYTHONHASHSEED in fresh interpreters.",
-        TB + "Partial: byte encoders trusted as deterministic functions of the description; glob selection abstract (C09); rebuild_idempotent only under 'no rule selects the left-overs'; editable wheels contain the absolute path by design.",
+        TB + "Partial: byte encoders trusted as deterministic functions of the description; glob selection abstract (C09); rebuild_idempotent proved for glob rules under the decidable 'every rule avoids dist/build/egg-info' (bytecode caches unconditionally), the abstract statement is refuted, and `include` reaching `dist/` is observed on the real code and declared outside the quantifier (the configuration makes dist/ part of the content); editable wheels contain the absolute path by design.",
         "DESIGN.md §4 C08",
     ),
     "C14": (
@@ -159,7 +159,7 @@ CLAIMED: dict[str, tuple[str, str, str, str]] = {
         "come from one renderer, and that the wheel selected from the unpacked sdist equals the wheel selected from the tree under named "
         "hypotheses (the unrestricted statement is proved FALSE on two witnesses, both reproduced on the real builders). Each run builds "
         "real sdists/wheels (incl. wheel-from-unpacked-sdist, git work trees) and compares member lists with the model.",
-        TB + "tar/zip/gzip encoders, pathlib.glob (tied by 20k fnmatch + 5k glob cases in thorough), git are trusted; symlinks and '..' patterns outside the model. Four known findings (by-design asymmetries), two defects fixed.",
+        TB + "tar/zip/gzip encoders, pathlib.glob (tied by 20k fnmatch + 5k glob cases in thorough), git are trusted (a reference model of `git ls-files --others -i --exclude-standard` incl. directory patterns is tied to git itself on every run); the positive wheel-from-sdist statement is reduced to premise + rebuild-succeeds + the decidable arcSafe / pkgInfoUnreached (no VCS); symlinks and '..' patterns outside the model. Four known findings (by-design asymmetries), two defects fixed.",
         "DESIGN.md §4 C09",
     ),
     "C12": (
